@@ -123,6 +123,52 @@ def leg_text(run, quick):
     run.notes['text_patterns_checked'] = n
 
 
+def leg_dispatch(run):
+    """"the handler receives Python str conversions of those segments": what an endpoint receives when the request goes through
+    the Application equals what the bound route's match_path assigns (which the strings leg has TLC judge), also for
+    segments with non-ASCII letters, blanks and percent signs - the WSGI server hands PATH_INFO over latin-1 decoded."""
+    import common
+    common.fresh_repo_import()
+    from clastic import Application, Response
+    from werkzeug.test import create_environ, run_wsgi_app
+    got = {}
+    pats = ['/a/<x>', '/a/<x>/<y?>', '/r/<r*>', '/r2/<r+>/end', '/n/<n:int>/<s>', u'/caf\xe9/<x>']
+
+    def ep(x=None, y=None, r=None, n=None, s=None):
+        got['kw'] = dict((k, v) for k, v in (('x', x), ('y', y), ('r', r), ('n', n), ('s', s)) if v is not None)
+        return Response('ok')
+    app = Application([(p_, ep) for p_ in pats])
+    segs = [u'zo\xe9', u'\u65e5\u672c', u'a b', u'50%', u'%41', u'\xfc\xdf', 'plain', u'\u2603snow']
+    paths = []
+    for a_ in segs:
+        paths += [u'/a/' + a_, u'/a/' + a_ + u'/' + segs[(segs.index(a_) + 1) % len(segs)], u'/r/' + a_ + u'/x/' + a_,
+                  u'/r2/' + a_ + u'/end', u'/n/7/' + a_, u'/caf\xe9/' + a_]
+    for path in paths:
+        env = create_environ('/')
+        env['PATH_INFO'] = path.encode('utf8').decode('latin1')
+        got.clear()
+        run.evaluations += 1
+        try:
+            it, status, headers = run_wsgi_app(app, env)
+            b''.join(it)
+        except Exception as ex:  # noqa
+            run.violation('dispatch-raised:%s' % type(ex).__name__, 'request %r raised %r' % (path, ex), {'leg': 'L2', 'kind': 'dispatch', 'path': path})
+            continue
+        expected = None
+        for br in app.routes:
+            m = br.match_path(path)
+            if m is not None:
+                expected = dict((k, v) for k, v in m.items() if v is not None)
+                break
+        observed = got.get('kw') if status.startswith('200') else None
+        if observed != expected:
+            run.violation('handler-receives-other-values', 'request %r: the endpoint received %r, match_path assigns %r'
+                          % (path, observed, expected), {'leg': 'L2', 'kind': 'dispatch', 'path': path})
+        else:
+            run.traces += 1
+            run.nontrivial.add('dispatch:' + path)
+
+
 def classify_reject(rec, k, pats):
     o = rec['obs'][k - 1]
     pat = pats[o['p'] - 1]
@@ -246,6 +292,7 @@ def check(run):
     if r.violated:
         run.tlc_violation('Pattern_MC', r)
     leg_text(run, quick)
+    leg_dispatch(run)
     leg_strings(run, quick)
 
 
@@ -253,6 +300,9 @@ def replay(run, path):
     with open(path) as f:
         rp = json.load(f)
     c = rp['case']
+    if c.get('kind') == 'dispatch':
+        print('re-run `bin/check C05 quick` (dispatch leg), path %r' % c['path'])
+        return 1
     if c.get('kind') == 'text':
         from clastic import Route
         try:
